@@ -26,7 +26,7 @@ ASSUMPTIONS = [
 ]
 TECHNIQUE = "reference-model runtime monitor (respondent-level indicator variance) + intrinsic relations"
 DESIGN_REF = "DESIGN.md 4 C11"
-WEIGHTS = ["none", "frac", "zeros", "float"]
+WEIGHTS = ["none", "frac", "zeros", "float", "scales", "tiny"]
 INS = ["none", "sum", "diff", "diff"]
 REQUIRED_REACH = ["variance", "std_dev_is_sqrt", "std_err", "moe_is_z_times_se", "strand",
                   "class:cell=ordinary", "class:cell=subtotal", "class:cell=difference",
